@@ -788,9 +788,14 @@ class ESME:
                 command_status=header.command_status.name,
                 sequence_num=header.sequence_num,
             )
-            await self._send_data(
-                GenericNack(header.sequence_num, SmppCommandStatus.ESME_RINVCMDID)
-            )
+            try:
+                await self._send_data(
+                    GenericNack(header.sequence_num, SmppCommandStatus.ESME_RINVCMDID)
+                )
+            except (Exception, CancelledError):
+                # The PDU was read: user application gets it even if it could not be answered
+                await self.hook.received(None, pdu, self.client_id)
+                raise
             return None
 
         message_class: Type[SmppMessage] = MESSAGE_TYPE_MAP[header.smpp_command]
@@ -809,7 +814,14 @@ class ESME:
                     sequence_num=header.sequence_num,
                     pdu=pdu.hex(),
                 )
-            await self._send_data(GenericNack(header.sequence_num, SmppCommandStatus.ESME_RSYSERR))
+            try:
+                await self._send_data(
+                    GenericNack(header.sequence_num, SmppCommandStatus.ESME_RSYSERR)
+                )
+            except (Exception, CancelledError):
+                # The PDU was read: user application gets it even if it could not be answered
+                await self.hook.received(None, pdu, self.client_id)
+                raise
             return None
         if isinstance(smpp_message, DeliverSm):
             if not smpp_message.is_receipt():
